@@ -1,11 +1,21 @@
 /-
 C02 — term equality, hashing and ordering are lawful (model: SophiaModel/Basic/TermOrder.lean,
-a transcription of `Term::eq/cmp/hash` and `LanguageTag`'s folded `Eq/Ord/Hash`).
+a transcription of `Term::eq/cmp/hash` and `LanguageTag`'s folded `Eq/Ord/Hash`), do not depend on
+the implementation (everything is written against the accessor methods: SophiaModel/Model/TermImpls.lean),
+and conversions rebuild an equal term.
+
+Part 1: the laws of `termEq` / `termCmp` / `termHash`.
+Part 2: the accessor-style text of the default methods is the same function; kinds; language tags.
+Part 3: conversions, `graph_name_eq`, string wrappers.
+Part 4: obligations over the table regenerated from /repo (`SophiaModel/Gen/TermKind.lean`).
 -/
 import SophiaProofs.Lemmas.TermOrder
+import SophiaProofs.Lemmas.TermImpls
+import SophiaModel.Model.TermImpls
+import SophiaModel.Gen.TermKind
 
 namespace SophiaProofs.C02
-open SophiaModel SophiaModel.Term SophiaProofs Std
+open SophiaModel SophiaModel.Term SophiaModel.TermImpls SophiaProofs Std
 
 /-- canonical representative: language tags ASCII-folded -/
 def norm : Term → Term
@@ -188,5 +198,302 @@ example : termEq (.lang "chat".toList "EN-gb".toList) (.lang "chat".toList "en-G
 compares Equal to a tagged one without being equal to it -/
 example : termCmp (.lit "a".toList rdfLangString) (.lang "a".toList "en".toList) = .eq ∧
     termEq (.lit "a".toList rdfLangString) (.lang "a".toList "en".toList) = false := by decide
+
+-- non-vacuity of the hypotheses of `termEq_trans`, `cmp_trans`, `cmp_trans_lt`, `gn_trans`:
+-- three pairwise different spellings of one term, and a strictly increasing chain through all five kinds
+example : termEq (.lang "a".toList "EN".toList) (.lang "a".toList "en".toList) = true ∧
+    termEq (.lang "a".toList "en".toList) (.lang "a".toList "En".toList) = true ∧
+    graphNameEq (some (.lang "a".toList "EN".toList)) (some (.lang "a".toList "en".toList)) = true := by decide
+example : termCmp (.bnode "z".toList) (.iri "a".toList) = .lt ∧
+    termCmp (.iri "a".toList) (.lit "".toList "x:d".toList) = .lt ∧
+    termCmp (.lit "".toList "x:d".toList) (.triple (.bnode "b".toList) (.iri "p".toList) (.var "v".toList)) = .lt ∧
+    termCmp (.triple (.bnode "b".toList) (.iri "p".toList) (.var "v".toList)) (.var "a".toList) = .lt ∧
+    (termCmp (.lit "10".toList "x:int".toList) (.lit "2".toList "x:int".toList)).isLE = true := by decide
+
+/-! ## Part 2 — the default methods as written (accessor style), kinds, language tags -/
+
+/-- `Term::eq` as written in term.rs (kind test, then one accessor comparison per kind) is `termEq` -/
+theorem eqA_eq (a b : Term) : eqA a b = termEq a b := by
+  induction a generalizing b with
+  | triple s p o ihs ihp iho =>
+    cases b <;> simp [eqA, termEq, kind, ihs, ihp, iho]
+  | iri s => cases b <;> simp [eqA, termEq, kind, iri?]
+  | bnode s => cases b <;> simp [eqA, termEq, kind, bnodeId?]
+  | var s => cases b <;> simp [eqA, termEq, kind, variable?]
+  | lit l d => cases b <;> simp [eqA, termEq, kind, lexicalForm?, languageTag?, optTagEq, datatype]
+  | lang l t => cases b <;> simp [eqA, termEq, kind, lexicalForm?, languageTag?, optTagEq]
+
+/-- `Term::cmp` as written (`k1.cmp(&k2).then_with(..)`) is `termCmp` -/
+theorem cmpA_eq (a b : Term) : cmpA a b = termCmp a b := by
+  induction a generalizing b with
+  | triple s p o ihs ihp iho =>
+    cases b <;> simp [cmpA, termCmp, kind, Kind.rank, ihs, ihp, iho, Nat.compare_eq_ite_lt]
+  | iri s => cases b <;> simp [cmpA, termCmp, kind, Kind.rank, iri?, optStrCmp, Nat.compare_eq_ite_lt]
+  | bnode s => cases b <;> simp [cmpA, termCmp, kind, Kind.rank, bnodeId?, optStrCmp, Nat.compare_eq_ite_lt]
+  | var s => cases b <;> simp [cmpA, termCmp, kind, Kind.rank, variable?, optStrCmp, Nat.compare_eq_ite_lt]
+  | lit l d => cases b <;> simp [cmpA, termCmp, kind, Kind.rank, lexicalForm?, languageTag?, optStrCmp, datatype, Nat.compare_eq_ite_lt]
+  | lang l t => cases b <;> simp [cmpA, termCmp, kind, Kind.rank, lexicalForm?, languageTag?, optStrCmp, datatype, Nat.compare_eq_ite_lt]
+
+/-- `Term::hash` as written (`k.hash(state)`, then per kind) feeds what `termHash` says -/
+theorem hashA_eq (a : Term) : hashA a = termHash a := by
+  induction a with
+  | triple s p o ihs ihp iho => simp [hashA, termHash, ihs, ihp, iho, Kind.rank]
+  | iri s => simp [hashA, termHash, kind, Kind.rank, iri?]
+  | bnode s => simp [hashA, termHash, kind, Kind.rank, bnodeId?]
+  | var s => simp [hashA, termHash, kind, Kind.rank, variable?]
+  | lit l d => simp [hashA, termHash, kind, Kind.rank, lexicalForm?, languageTag?, datatype]
+  | lang l t => simp [hashA, termHash, kind, Kind.rank, lexicalForm?, languageTag?]
+
+/-- equal terms have the same kind -/
+theorem eq_kind (a b : Term) (h : termEq a b = true) : a.kind = b.kind := by
+  cases a <;> cases b <;> simp_all [termEq, kind]
+
+/-- the other half of the kind order -/
+theorem cmp_kind_gt (a b : Term) (h : b.kind.rank < a.kind.rank) : termCmp a b = .gt := by
+  cases a <;> cases b <;> simp_all [termCmp, kind, Kind.rank, Nat.compare_eq_ite_lt]
+
+/-- `cmp` is reflexive on *every* term (no well-formedness needed) -/
+theorem cmp_refl (a : Term) : termCmp a a = .eq := by
+  induction a with
+  | triple s p o ihs ihp iho => simp [termCmp, ihs, ihp, iho]
+  | iri s => simp [termCmp, strCmp_refl]
+  | bnode s => simp [termCmp, strCmp_refl]
+  | var s => simp [termCmp, strCmp_refl]
+  | lit l d => simp [termCmp, strCmp_refl]
+  | lang l t => simp [termCmp, tagCmp, strCmp_refl]
+
+/-- `LanguageTag::cmp` is `Equal` exactly when `LanguageTag::eq` holds -/
+theorem tagCmp_eq_iff (a b : Str) : tagCmp a b = .eq ↔ tagEq a b = true := by
+  unfold tagCmp tagEq
+  constructor
+  · intro h
+    by_cases hab : foldTag a = foldTag b
+    · simp [hab]
+    · exact absurd h (strCmp_ne_of_ne hab)
+  · intro h
+    rw [beq_iff_eq] at h
+    rw [h]; exact strCmp_refl _
+
+/-- language tags are compared ignoring ASCII case: changing the case of any characters of a tag
+(any `f` that lower-casing forgets: `to_ascii_uppercase`, `to_ascii_lowercase`, a mixture) gives an equal tag -/
+theorem tag_case_insensitive (f : Char → Char) (hf : ∀ c, lowerAscii (f c) = lowerAscii c) (t : Str) :
+    tagEq (t.map f) t = true := by
+  simp [tagEq, foldTag, List.map_map, Function.comp_def, hf]
+
+theorem tag_upper (t : Str) : tagEq (t.map upperAscii) t = true := tag_case_insensitive _ lower_upper t
+theorem tag_lower (t : Str) : tagEq (foldTag t) t = true := tag_case_insensitive _ lowerAscii_idem t
+
+/-- … hence so are the literals carrying them, their hashes and their order -/
+theorem lang_case_insensitive (l t : Str) :
+    termEq (.lang l (t.map upperAscii)) (.lang l t) = true ∧
+    termHash (.lang l (t.map upperAscii)) = termHash (.lang l t) ∧
+    termCmp (.lang l (t.map upperAscii)) (.lang l t) = .eq := by
+  have h : termEq (.lang l (t.map upperAscii)) (.lang l t) = true := by simp [termEq, tag_upper]
+  exact ⟨h, eq_hash _ _ h, (cmp_eq_iff _ _ (by simp [WF]) (by simp [WF])).2 h⟩
+
+example : tagEq "EN-gb".toList "en-GB".toList = true ∧ tagCmp "EN-gb".toList "en-GB".toList = .eq := by decide
+example : "zh-Hant".toList.map upperAscii = "ZH-HANT".toList := by decide
+
+/-! ## Part 3 — conversions, graph names, string wrappers -/
+
+/-- `from_term` / `from_term_ref` / `copy_term` (rebuild from `kind()` and the accessors of that kind)
+return the term they were given … -/
+theorem fromTerm_id (t : Term) : fromTerm t = t := by
+  induction t with
+  | triple s p o ihs ihp iho => simp [fromTerm, ihs, ihp, iho]
+  | iri s => simp [fromTerm, kind, iri?]
+  | bnode s => simp [fromTerm, kind, bnodeId?]
+  | var s => simp [fromTerm, kind, variable?]
+  | lit l d => simp [fromTerm, kind, lexicalForm?, languageTag?, datatype]
+  | lang l t => simp [fromTerm, kind, lexicalForm?, languageTag?]
+
+/-- … so "converting or copying a term yields an equal term", with the same hash and comparing Equal -/
+theorem conv_eq (t : Term) :
+    termEq (fromTerm t) t = true ∧ termHash (fromTerm t) = termHash t ∧ termCmp (fromTerm t) t = .eq := by
+  rw [fromTerm_id]; exact ⟨termEq_refl t, rfl, cmp_refl t⟩
+
+/-- the `unwrap()`s of the conversions never fail: a term of a kind answers that kind's accessors -/
+theorem accessors_total (t : Term) :
+    (t.kind = .iri → (iri? t).isSome) ∧ (t.kind = .bnode → (bnodeId? t).isSome) ∧
+    (t.kind = .variable → (variable? t).isSome) ∧ (t.kind = .triple → (triple? t).isSome) ∧
+    (t.kind = .literal → (lexicalForm? t).isSome ∧ t.datatype.isSome) := by
+  cases t <;> simp [kind, iri?, bnodeId?, variable?, triple?, lexicalForm?, datatype]
+
+/-- `GenericLiteral::try_from_term` succeeds exactly on literals, and then returns the same literal -/
+theorem genericLiteral_spec (t : Term) :
+    genericLiteral? t = if t.kind = .literal then some t else none := by
+  cases t <;> simp [genericLiteral?, kind, lexicalForm?, languageTag?, datatype]
+
+/-- `graph_name_eq` is an equivalence on optional terms -/
+theorem gn_refl (g : Option Term) : graphNameEq g g = true := by
+  cases g <;> simp [graphNameEq, termEq_refl]
+theorem gn_symm (g h : Option Term) : graphNameEq g h = graphNameEq h g := by
+  cases g <;> cases h <;> simp [graphNameEq, termEq_symm]
+theorem gn_trans (g h k : Option Term) (h1 : graphNameEq g h = true) (h2 : graphNameEq h k = true) :
+    graphNameEq g k = true := by
+  cases g <;> cases h <;> cases k <;> simp_all [graphNameEq]
+  exact termEq_trans _ _ _ h1 h2
+
+/-- the `wrap!`-generated std impls: `cmp` is Equal exactly for `==`, and `==` values hash alike;
+an IRI / blank node / variable *term* is equal to another iff their wrappers are -/
+theorem wrap_laws (a b : Str) :
+    (wrapCmp a b = .eq ↔ wrapEq a b = true) ∧ (wrapEq a b = true → wrapHash a = wrapHash b) ∧
+    termEq (.iri a) (.iri b) = wrapEq a b ∧ termEq (.bnode a) (.bnode b) = wrapEq a b ∧
+    termEq (.var a) (.var b) = wrapEq a b := by
+  refine ⟨⟨fun h => ?_, fun h => ?_⟩, fun h => ?_, rfl, rfl, rfl⟩
+  · by_cases hab : a = b
+    · simp [wrapEq, hab]
+    · exact absurd h (strCmp_ne_of_ne hab)
+  · simp only [wrapEq, beq_iff_eq] at h; subst h; exact strCmp_refl _
+  · simp only [wrapEq, beq_iff_eq] at h; simp [wrapHash, h]
+
+/-! ## Part 4 — obligations over the table regenerated from /repo on every run
+(`SophiaModel/Gen/TermKind.lean`, tools/extractors/c02.py) -/
+
+/-- the numbers `Kind.rank` uses (in `cmp_kind`, `termHash`) are the discriminants of `enum TermKind`,
+and `Ord`/`Hash` of `TermKind` are derived (= by discriminant) -/
+theorem gen_kind_disc :
+    Gen.TermKind.disc = [("BlankNode", Kind.rank .bnode), ("Iri", Kind.rank .iri), ("Literal", Kind.rank .literal),
+      ("Triple", Kind.rank .triple), ("Variable", Kind.rank .variable)] ∧
+    "Ord" ∈ Gen.TermKind.derives ∧ "PartialOrd" ∈ Gen.TermKind.derives ∧ "Hash" ∈ Gen.TermKind.derives ∧
+    "PartialEq" ∈ Gen.TermKind.derives ∧ "Eq" ∈ Gen.TermKind.derives := by decide
+
+/-- every statement of the default `Term::eq/cmp/hash` that the model transcribes is still in the source -/
+theorem gen_default_shape :
+    Gen.TermKind.defaultShape.all (·.2) = true ∧ Gen.TermKind.defaultShape.length = 18 := by decide
+
+/-- `LanguageTag`'s `==`, `cmp`, `hash` still fold ASCII case -/
+theorem gen_tag_folds : Gen.TermKind.tagFolds.all (·.2) = true ∧ Gen.TermKind.tagFolds.length = 5 := by decide
+
+/-- `NsTerm::eq` still has the shape `nsTermEq` models (and `NsTerm` overrides nothing else of eq/cmp/hash) -/
+theorem gen_nsterm_shape : Gen.TermKind.nsTermEqShape = true := by decide
+
+/-- what a wrapper must do with each `Term` method: forward it (accessors), forward it or leave the default
+(`eq`/`cmp`/`hash`); `C14nTerm` may leave variables and quoted triples unimplemented (RDFC-1.0 has neither) -/
+def delegationRowOk (r : String × String × String) : Bool :=
+  let (ty, m, st) := r
+  if m ∈ ["eq", "cmp", "hash"] then st == "delegates" || st == "absent"
+  else if ty == "C14nTerm" && m ∈ ["variable", "triple", "to_triple"] then st == "delegates" || st == "unimplemented"
+  else st == "delegates"
+
+/-- `CmpTerm`, `IsoTerm`, `ResultTerm`, `&T`, `C14nTerm` expose exactly the wrapped term (5 types × 13 methods) -/
+theorem gen_delegation :
+    Gen.TermKind.delegation.all delegationRowOk = true ∧ Gen.TermKind.delegation.length = 65 := by decide
+
+/-- every std `PartialEq<T>` / `PartialOrd<T>` / `Ord` / `Hash` impl of a term type is the one-line call of
+`Term::eq` / `Term::cmp` / `Term::hash` -/
+theorem gen_std_impls :
+    Gen.TermKind.stdImpls.all (·.2.2) = true ∧ 21 ≤ Gen.TermKind.stdImpls.length := by decide
+
+-- the row predicate is not vacuous: it rejects a wrapper that answers an accessor itself
+example : delegationRowOk ("IsoTerm", "language_tag", "other") = false ∧
+    delegationRowOk ("CmpTerm", "eq", "other") = false ∧ delegationRowOk ("CmpTerm", "triple", "unimplemented") = false := by
+  decide
+
+/-! ## Part 5 — independence of the implementation
+
+The default methods only call the accessors. For ANY two implementations (`Impl α`, `Impl β`: arbitrary
+carrier types with arbitrary accessor functions) and any values exposing the abstract terms `t` and `u`,
+the default `eq` / `cmp` / `hash` return `termEq t u` / `termCmp t u` / `termHash t`: the answer depends on
+the terms only, never on the type holding them. -/
+
+theorem eqI_eq {α β : Type} (I : Impl α) (J : Impl β) (n : Nat) (x : α) (y : β) (t u : Term)
+    (hx : Views I x t) (hy : Views J y u) (hn : depth t < n) : eqI I J n x y = termEq t u := by
+  induction n generalizing x y t u with
+  | zero => omega
+  | succ n ih =>
+    cases hx with
+    | atom _ _ hnt hk hi hb hv hl hg hd =>
+      cases hy with
+      | atom _ _ hnt2 hk2 hi2 hb2 hv2 hl2 hg2 hd2 =>
+        rw [← eqA_eq]
+        simp only [eqI, hk, hi, hb, hv, hl, hg, hd, hk2, hi2, hb2, hv2, hl2, hg2, hd2]
+        cases t <;> cases u <;> simp_all [eqA, kind, iri?, bnodeId?, variable?, lexicalForm?, languageTag?, optTagEq, datatype]
+      | triple _ ys yp yo s2 p2 o2 hk2 ht2 h1 h2 h3 =>
+        simp only [eqI, hk, hk2]
+        cases t <;> simp_all [termEq, kind]
+    | triple _ xs xp xo s p o hk ht h1 h2 h3 =>
+      cases hy with
+      | atom _ _ hnt2 hk2 hi2 hb2 hv2 hl2 hg2 hd2 =>
+        simp only [eqI, hk, hk2]
+        cases u <;> simp_all [termEq, kind]
+      | triple _ ys yp yo s2 p2 o2 hk2 ht2 g1 g2 g3 =>
+        simp only [depth] at hn
+        simp only [eqI, hk, hk2, ht, ht2, termEq]
+        rw [ih xs ys s s2 h1 g1 (by omega), ih xp yp p p2 h2 g2 (by omega), ih xo yo o o2 h3 g3 (by omega)]
+        simp
+
+theorem cmpI_eq {α β : Type} (I : Impl α) (J : Impl β) (n : Nat) (x : α) (y : β) (t u : Term)
+    (hx : Views I x t) (hy : Views J y u) (hn : depth t < n) : cmpI I J n x y = termCmp t u := by
+  induction n generalizing x y t u with
+  | zero => omega
+  | succ n ih =>
+    cases hx with
+    | atom _ _ hnt hk hi hb hv hl hg hd =>
+      cases hy with
+      | atom _ _ hnt2 hk2 hi2 hb2 hv2 hl2 hg2 hd2 =>
+        rw [← cmpA_eq]
+        simp only [cmpI, hk, hi, hb, hv, hl, hg, hd, hk2, hi2, hb2, hv2, hl2, hg2, hd2]
+        cases t <;> cases u <;> simp_all [cmpA, kind, Kind.rank, iri?, bnodeId?, variable?, lexicalForm?, languageTag?, optStrCmp, datatype]
+      | triple _ ys yp yo s2 p2 o2 hk2 ht2 h1 h2 h3 =>
+        simp only [cmpI, hk, hk2]
+        cases t <;> simp_all [termCmp, kind, Kind.rank, Nat.compare_eq_ite_lt]
+    | triple _ xs xp xo s p o hk ht h1 h2 h3 =>
+      cases hy with
+      | atom _ _ hnt2 hk2 hi2 hb2 hv2 hl2 hg2 hd2 =>
+        simp only [cmpI, hk, hk2]
+        cases u <;> simp_all [termCmp, kind, Kind.rank, Nat.compare_eq_ite_lt]
+      | triple _ ys yp yo s2 p2 o2 hk2 ht2 g1 g2 g3 =>
+        simp only [depth] at hn
+        simp only [cmpI, hk, hk2, ht, ht2, termCmp]
+        rw [ih xs ys s s2 h1 g1 (by omega), ih xp yp p p2 h2 g2 (by omega), ih xo yo o o2 h3 g3 (by omega)]
+        simp [Kind.rank]
+
+theorem hashI_eq {α : Type} (I : Impl α) (n : Nat) (x : α) (t : Term)
+    (hx : Views I x t) (hn : depth t < n) : hashI I n x = termHash t := by
+  induction n generalizing x t with
+  | zero => omega
+  | succ n ih =>
+    cases hx with
+    | atom _ _ hnt hk hi hb hv hl hg hd =>
+      rw [← hashA_eq]
+      simp only [hashI, hk, hi, hb, hv, hl, hg, hd]
+      cases t <;> simp_all [hashA, kind, Kind.rank, iri?, bnodeId?, variable?, lexicalForm?, languageTag?, datatype]
+    | triple _ xs xp xo s p o hk ht h1 h2 h3 =>
+      simp only [depth] at hn
+      simp only [hashI, hk, ht, termHash]
+      rw [ih xs s h1 (by omega), ih xp p h2 (by omega), ih xo o h3 (by omega)]
+      simp [Kind.rank]
+
+/-- "never on the Rust type holding it": two pairs of values, held by four arbitrary implementations, that
+expose the same two terms get the same `eq`, the same `cmp` and the same hash input -/
+theorem impl_independent {α β γ δ : Type} (I : Impl α) (J : Impl β) (I' : Impl γ) (J' : Impl δ)
+    (x : α) (y : β) (x' : γ) (y' : δ) (t u : Term) (n m : Nat)
+    (hx : Views I x t) (hy : Views J y u) (hx' : Views I' x' t) (hy' : Views J' y' u)
+    (hn : depth t < n) (hm : depth t < m) :
+    eqI I J n x y = eqI I' J' m x' y' ∧ cmpI I J n x y = cmpI I' J' m x' y' ∧ hashI I n x = hashI I' m x' := by
+  rw [eqI_eq I J n x y t u hx hy hn, eqI_eq I' J' m x' y' t u hx' hy' hm,
+    cmpI_eq I J n x y t u hx hy hn, cmpI_eq I' J' m x' y' t u hx' hy' hm,
+    hashI_eq I n x t hx hn, hashI_eq I' m x' t hx' hm]
+  exact ⟨rfl, rfl, rfl⟩
+
+/-- `Views` is inhabited at every term (the term itself) … -/
+theorem views_self (t : Term) : Views termImpl t t := by
+  induction t with
+  | triple s p o ihs ihp iho => exact Views.triple _ s p o s p o rfl rfl ihs ihp iho
+  | iri s => exact Views.atom _ _ (by simp [kind]) rfl rfl rfl rfl rfl rfl rfl
+  | bnode s => exact Views.atom _ _ (by simp [kind]) rfl rfl rfl rfl rfl rfl rfl
+  | var s => exact Views.atom _ _ (by simp [kind]) rfl rfl rfl rfl rfl rfl rfl
+  | lit l d => exact Views.atom _ _ (by simp [kind]) rfl rfl rfl rfl rfl rfl rfl
+  | lang l t => exact Views.atom _ _ (by simp [kind]) rfl rfl rfl rfl rfl rfl rfl
+
+/-- … and by a structurally different implementation (`NsTerm`: namespace + suffix) -/
+theorem views_ns (ns suffix : Str) : Views nsImpl (ns, suffix) (.iri (ns ++ suffix)) :=
+  Views.atom _ _ (by simp [kind]) rfl rfl rfl rfl rfl rfl rfl
+
+/-- so e.g. an `NsTerm` compared with any implementation exposing `u` behaves as the concatenated IRI -/
+example (ns suffix : Str) (u : Term) :
+    eqI nsImpl termImpl 1 (ns, suffix) u = termEq (.iri (ns ++ suffix)) u :=
+  eqI_eq _ _ _ _ _ _ _ (views_ns ns suffix) (views_self u) (by simp [depth])
 
 end SophiaProofs.C02
